@@ -162,3 +162,22 @@ M("c12-dereg-all", "C12", "flexstack/facilities/local_dynamic_map/ldm_service.py
   "            self.data_consumer_its_aid.discard(its_aid)", "            self.data_consumer_its_aid.discard(its_aid)\n            self.data_provider_its_aid.discard(its_aid)", "deregistering a consumer also deregisters the provider with the same id")
 M("c12-delete-revert", "C12", "flexstack/facilities/local_dynamic_map/if_ldm_3.py",
   "            if stored is not None:\n                self.ldm_service.ldm_maintenance.del_provider_data(stored)", "            self.ldm_service.del_provider_data(data_provider.data_object_id)", "revert of the delete fix")
+
+# ---------------------------------------------------------------- C13
+M("c13-ge", "C13", "flexstack/facilities/local_dynamic_map/ldm_constants.py", "    \">=\": lambda x, y: x >= y,", "    \">=\": lambda x, y: x > y,", ">= evaluated as >")
+M("c13-or-and", "C13", "flexstack/facilities/local_dynamic_map/dictionary_database.py",
+  "                    matches = matches or second", "                    matches = matches and second", "'or' filters evaluated as 'and' (Dictionary)")
+M("c13-tinydb-or", "C13", "flexstack/facilities/local_dynamic_map/tinydb_database.py",
+  "            if logical_operator == \"or\":\n                return left_condition | right_condition", "            if logical_operator == \"or\":\n                return left_condition & right_condition", "'or' filters evaluated as 'and' (TinyDB)")
+M("c13-notlike", "C13", "flexstack/facilities/local_dynamic_map/ldm_constants.py",
+  "    \"notlike\": lambda x, y: _wrap_like_operator(x, y, negate=True),", "    \"notlike\": lambda x, y: _wrap_like_operator(x, y),", "notlike behaves like like")
+M("c13-type-filter", "C13", "flexstack/facilities/local_dynamic_map/ldm_classes.py",
+  "                in data_object_types\n            ):\n                filtered_search_result.append(result)", "                in data_object_types[:1]\n            ):\n                filtered_search_result.append(result)", "only the first requested type is honoured")
+M("c13-order-dir", "C13", "flexstack/facilities/local_dynamic_map/ldm_service.py",
+  "                reverse=order.ordering_direction == OrderingDirection.DESCENDING,", "                reverse=order.ordering_direction == OrderingDirection.ASCENDING,", "ordering direction inverted")
+M("c13-order-sig", "C13", "flexstack/facilities/local_dynamic_map/ldm_service.py",
+  "        for order in reversed(orders):", "        for order in orders:", "order keys applied in the wrong significance")
+M("c13-missing-attr", "C13", "flexstack/facilities/local_dynamic_map/dictionary_database.py",
+  "        except (KeyError, TypeError):\n            return False", "        except (KeyError, TypeError):\n            return True", "object lacking the attribute matches")
+M("c13-tinydb-root", "C13", "flexstack/facilities/local_dynamic_map/tinydb_database.py",
+  "        nested_fields = [\"dataObject\"] + attribute.split(\".\")", "        nested_fields = attribute.split(\".\")", "revert of the TinyDB path-root fix")
